@@ -658,3 +658,78 @@ Definition mode_of (m : modes) (fs : fsmap) (p : phys) : option N :=
   | None => None
   | Some n => Some (match assoc_m m p with Some x => x | None => default_mode n end)
   end.
+
+(* ------------------------------------------------------------------------------------ *)
+(* output directory "-": file contents go to standard output, no file-system call is made
+   (extractDir / extractFile with outputRoot = "" / outputName = "")                          *)
+
+Definition stdout_leaf (out : bytes) (t : utree) : bytes * xres :=
+  match t with
+  | UMissing => (out, XOk 0)
+  | UBad => (out, XErr)
+  | UFile d => (out ++ d, XOk 1)
+  | UFileErr d => (out ++ d, XErr)
+  | ULink _ => (out, XErr)            (* "cannot extract a symlink to stdout" *)
+  | UDir _ => (out, XErr)
+  end.
+
+Fixpoint stdout_dir (t : utree) (out : bytes) (mp : list name) {struct t} : bytes * xres :=
+  match t with
+  | UDir es =>
+    match mp with
+    | m :: sub =>
+      (fix find (es : list (name * utree)) : bytes * xres :=
+         match es with
+         | [] => (out, XErr)
+         | (nm, t') :: rest =>
+           if bytes_eqb nm m
+           then (if is_udir t' then stdout_dir t' out sub else stdout_leaf out t')
+           else find rest
+         end) es
+    | [] =>
+      (fix loop (es : list (name * utree)) (out : bytes) (cnt : N) : bytes * xres :=
+         match es with
+         | [] => (out, XOk cnt)
+         | (nm, t') :: rest =>
+           match (if is_udir t' then stdout_dir t' out [] else stdout_leaf out t') with
+           | (out', XOk c) => loop rest out' (cnt + c)
+           | (out', XErr) => (out', XErr)
+           end
+         end) es out 0
+    end
+  | _ => (out, XErr)
+  end.
+
+Definition stdout_root (out : bytes) (mp : list name) (r : uroot) : bytes * xres :=
+  match r with
+  | RRaw => (out, XOk 0)
+  | RNode UMissing => (out, XErr)
+  | RNode UBad => (out, XErr)
+  | RNode (UDir es) => stdout_dir (UDir es) out mp
+  | RNode (ULink _) => stdout_dir (UDir []) out mp
+  | RNode (UFile d) => (out ++ d, XOk 1)
+  | RNode (UFileErr d) => (out ++ d, XErr)
+  end.
+
+Fixpoint stdout_roots (out : bytes) (mp : list name) (rs : list uroot) (cnt : N) : bytes * xres :=
+  match rs with
+  | [] => (out, XOk cnt)
+  | r :: rest =>
+    match stdout_root out mp r with
+    | (out1, XOk c) => stdout_roots out1 mp rest (cnt + c)
+    | (out1, XErr) => (out1, XErr)
+    end
+  end.
+
+Definition s_dash : bytes := [x2d].
+
+(* ExtractCar, any output directory argument: (file system, standard output, result) *)
+Definition extract_main (guard : bool) (fs : fsmap) (cwd : phys) (outdir : bytes)
+  (pathflag : bytes) (roots : list uroot) : fsmap * bytes * xres :=
+  if bytes_eqb outdir s_dash then
+    match path_segments pathflag with
+    | None => (fs, [], XErr)
+    | Some mp => let '(out, r) := stdout_roots [] mp roots 0 in (fs, out, r)
+    end
+  else
+    let '(fs', r) := extract_cmd guard fs cwd outdir pathflag roots in (fs', [], r).
